@@ -178,6 +178,8 @@ class Interp:
         """attribute read on an abstract object"""
         o = ov.obj
         attrs = st.heap.get(o.id, {})
+        if name == "__dict__":
+            return V("objdict", T("vars", ov.term), obj=o, labels=ov.labels, extra=ov)
         if name in attrs:
             v = attrs[name]
             if v.kind == "undef":
@@ -624,8 +626,44 @@ class Interp:
             region = self.api.index_shape(self, base, idx, st, stmt)
             if region is not None and v.shape is not None:
                 self.api.broadcast(self, region, v.shape, st, stmt, what="store")
-        new = base.replace(term=T("store", base.term, idx.term, v.term), labels=base.labels | v.labels | idx.labels, has_const=False, const_=None, items=None)
+        blk = self._block_store(base, idx, v)
+        new = base.replace(term=blk if blk is not None else T("store", base.term, idx.term, v.term), labels=base.labels | v.labels | idx.labels, has_const=False, const_=None, items=None)
         self.rebind(base, new, st)
+
+    def _block_store(self, base, idx, v):
+        """Z = zeros(shape); Z[:k] = A  /  Z[:, :k] = A   is the concatenation [A, 0]"""
+        bt = base.term
+        if bt.op == "astype_dyn" and bt.args[1] == T("dtype", v.term):
+            bt = bt.args[0]  # a buffer of the block's own dtype stores it without a cast
+        if base.kind != "arr" or base.shape is None or bt.op != "zeros" or v.kind != "arr" or v.shape is None:
+            return None
+        items = idx.items if idx.kind == "tuple" and idx.items is not None else [idx]
+        if len(items) > len(base.shape) or len(v.shape) != len(base.shape):
+            return None
+        axis = None
+        for ax, it in enumerate(items):
+            if it.kind != "slice":
+                return None
+            lo, hi, step = it.items
+            if step.kind != "none" or not (lo.kind == "none" or (lo.has_const and lo.const == 0)):
+                return None
+            if hi.kind == "none":
+                continue
+            if axis is not None:
+                return None
+            axis = ax
+        if axis is None:
+            return None
+        for ax, (db, dv) in enumerate(zip(base.shape, v.shape)):
+            if ax != axis and db != dv:
+                return None
+        rest = base.shape[axis] - v.shape[axis]
+        if not rest.known():
+            return None
+        if rest == Dim(0):
+            return v.term
+        dims = tuple(self.api.dim_term(rest if ax == axis else d) for ax, d in enumerate(base.shape))
+        return T("stack", const(axis), v.term, T("zeros", *dims))
 
     def rebind(self, old, new, st):
         """in-place mutation: every binding holding ``old`` now holds ``new``; other
